@@ -1,4 +1,3 @@
 SPECIFICATION TraceSpec
-CONSTANT CrashMode = "atomic"
 POSTCONDITION TraceAccepted
 CHECK_DEADLOCK FALSE
